@@ -194,6 +194,44 @@ def big_phase(res):
         res.counters.update(ctr)
         if res.violations:
             break
+    # one name owning most of the true cells (a full row / column of 10-19 cells), renamed:
+    # every cell must move with it, whatever the hash layout of the cell set (16 rank rotations
+    # and plain str hashing)
+    if not res.violations:
+        ctr = collections.Counter()
+        for n in range(10, 20):
+            wide = tuple(f'w{j:02d}' for j in range(n))
+            for axis in ('object', 'property'):
+                if axis == 'object':
+                    s = (('solo',), wide, frozenset(('solo', w) for w in wide))
+                    op = ('rename_object', 'solo', 'renamed')
+                    uni = (('solo', 'renamed'), wide)
+                else:
+                    s = (wide, ('solo',), frozenset((w, 'solo') for w in wide))
+                    op = ('rename_property', 'solo', 'renamed')
+                    uni = (wide, ('solo', 'renamed'))
+                nm = sorted(set(uni[0]) | set(uni[1]))
+                for rot in list(range(16)) + [None]:
+                    ranks = {} if rot is None else {x: (i * 5 + rot * 3) % (len(nm) + 7)
+                                                    for i, x in enumerate(nm)}
+                    env.HashLabel.ranks = ranks
+                    real = explore.make_real(s)
+                    V, _ = explore.step(real, s, op, uni, ctr)
+                    states += 1
+                    if V:
+                        case = {'universe': [list(uni[0]), list(uni[1])], 'ranks': ranks,
+                                'start': list(tm.triple(s)), 'start_name': f'{axis}-owning-{n}-cells',
+                                'history': [], 'op': explore.enc_op(op)}
+                        res.violations.append(common.violation(ID, V[0]['clause'], case,
+                                                               V[0]['expected'], V[0]['observed']))
+                        break
+                if res.violations:
+                    break
+            if res.violations:
+                break
+        transitions += ctr['transitions']
+        res.counters.update(ctr)
+    env.HashLabel.ranks = {}
     res.counters['big_phase_transitions'] = transitions
     return states, transitions
 
